@@ -793,6 +793,9 @@ func leavesWithFacts(v ssa.Value) []valueLeaf {
 			}
 			return
 		case *ssa.Call:
+			if _, _, isSna := snaHelper(x.Call.StaticCallee()); isSna {
+				break // a serial-number predicate is a leaf in its own right
+			}
 			if rs := helperReturns(x, 0); rs != nil && singleResult(x) {
 				sc := x.Call.StaticCallee()
 				for _, r := range allReturns(sc) {
